@@ -203,11 +203,16 @@
 		call $heap_is_fixed_list_enabled
 		if else
 			;; return l128
+			;; 0 字节的请求也要占用一个最小块(8字节):
+			;; l128 头节点的 size 为 0, 否则它会被当作空闲块分配出去
 			global.get $__heap_base
 			i32.const 32
 			i32.add
 			local.get $size
 			call $heap_alignment8
+			i32.const 8
+			local.get $size
+			select
 			return
 		end
 
